@@ -26,6 +26,9 @@ type harnessSpec struct {
 	ThoroughS int `json:"thorough_s,omitempty"`
 	ThoroughOnly bool `json:"thorough_only,omitempty"`
 	StrMax   int  `json:"str_max,omitempty"`
+	// RaceHarness: native-only harness that reruns a counterexample of this harness concurrently; a data
+	// race reported by the race detector confirms a "write to shared data" counterexample
+	RaceHarness string `json:"race_harness,omitempty"`
 	MaxSteps int64 `json:"max_steps,omitempty"`
 }
 
@@ -84,6 +87,10 @@ type replayResult struct {
 
 // nativeReplay runs `go test` on the package dir with the harness overlay and the given cex files.
 func nativeReplay(pkgDir string, cexPaths []string, timeout time.Duration) (map[string]*replayResult, string, error) {
+	return nativeReplayMode(pkgDir, cexPaths, timeout, false)
+}
+
+func nativeReplayMode(pkgDir string, cexPaths []string, timeout time.Duration, race bool) (map[string]*replayResult, string, error) {
 	res := map[string]*replayResult{}
 	for _, p := range cexPaths {
 		res[p] = &replayResult{Path: p, Status: "NOTRUN", Reached: map[string]bool{}}
@@ -105,11 +112,19 @@ func nativeReplay(pkgDir string, cexPaths []string, timeout time.Duration) (map[
 	if err := os.WriteFile(ovPath, ovJSON, 0o644); err != nil {
 		return res, "", err
 	}
-	args := []string{"test", "-tags", "verif", "-vet=off", "-count=1", "-overlay", ovPath,
-		"-timeout", fmt.Sprintf("%ds", int(timeout.Seconds())), "-run", "^TestVerifReplay$", "-v", "./" + pkgDir}
+	args := []string{"test"}
+	if race {
+		args = append(args, "-race")
+	}
+	args = append(args, "-tags", "verif", "-vet=off", "-count=1", "-overlay", ovPath,
+		"-timeout", fmt.Sprintf("%ds", int(timeout.Seconds())), "-run", "^TestVerifReplay$", "-v", "./"+pkgDir)
 	cmd := exec.Command("go", args...)
 	cmd.Dir = repoDir
-	cmd.Env = append(goEnv(), "VERIF_CEX="+strings.Join(cexPaths, ":"), "CGO_ENABLED=0")
+	cgo := "CGO_ENABLED=0"
+	if race {
+		cgo = "CGO_ENABLED=1"
+	}
+	cmd.Env = append(goEnv(), "VERIF_CEX="+strings.Join(cexPaths, ":"), cgo)
 	out, runErr := cmd.CombinedOutput()
 	text := string(out)
 	for _, line := range strings.Split(text, "\n") {
@@ -136,6 +151,13 @@ func nativeReplay(pkgDir string, cexPaths []string, timeout time.Duration) (map[
 				rest = strings.TrimSpace(rest[:i])
 			}
 			r.Detail = rest
+		}
+	}
+	if race && strings.Contains(text, "WARNING: DATA RACE") {
+		for _, r := range res {
+			if r.Status == "PASS" || r.Status == "NOTRUN" {
+				r.Status, r.Detail = "FAIL", "data race reported by the race detector"
+			}
 		}
 	}
 	if runErr != nil {
@@ -310,6 +332,10 @@ func cmdCheck(args []string) int {
 	var pend []pendingCex
 	var engineErrs []string
 	unreached := []string{}
+	raceHarness := map[string]string{}
+	for _, h := range spec.Harnesses {
+		raceHarness[h.Func] = h.RaceHarness
+	}
 	for _, h := range spec.Harnesses {
 		if *only != "" && h.Func != *only {
 			continue
@@ -421,6 +447,17 @@ func cmdCheck(args []string) int {
 				reachUnconfirmed = append(reachUnconfirmed, fmt.Sprintf("%s:%s(%s %s)", pc.harness, pc.label, st, de))
 			}
 			continue
+		}
+		if (r == nil || r.Status != "FAIL") && pc.kind == "write" && raceHarness[pc.harness] != "" {
+			// "write to shared data": confirm by running the same walk concurrently under the race detector
+			if c, err := readCex(pc.path); err == nil {
+				c.Harness, c.Repeat = raceHarness[pc.harness], 1
+				rp, _ := writeCex(cexDir, "race-"+filepath.Base(pc.path), c)
+				rr, _, err := nativeReplayMode(pc.pkg, []string{rp}, 20*time.Minute, true)
+				if err == nil && rr[rp] != nil && rr[rp].Status == "FAIL" {
+					r = rr[rp]
+				}
+			}
 		}
 		if r != nil && r.Status == "FAIL" {
 			violationPaths = append(violationPaths, pc.path)
